@@ -433,6 +433,8 @@ pub struct Sim {
     pub next_task: u64,
     pub trace: Vec<String>,
     pub steps: u64,
+    /// steps without progress of the virtual clock after which `quiesce` lets a second pass
+    pub autotick_steps: u64,
 }
 
 pub fn keypair_of(i: usize) -> Keypair {
@@ -486,7 +488,7 @@ impl Sim {
             rec.lock().unwrap().imp.push("ok".into());
             nodes.push(Node { idx: i, peer, addr, swarm, flag, waker, spawned, tasks: vec![], rec, store, content: BTreeMap::new(), prefix: prefixes[i].clone(), conns: BTreeMap::new(), events: vec![] });
         }
-        Sim { nodes, tables, now_ms: 0, next_task: 0, trace: vec![], steps: 0 }
+        Sim { nodes, tables, now_ms: 0, next_task: 0, trace: vec![], steps: 0, autotick_steps: 4000 }
     }
 
     fn collect_spawned(&mut self, i: usize) {
